@@ -4,7 +4,7 @@ open Main_common
 let run (line : string) : string =
   let ops = List.filter_map (fun ch ->
     match ch with
-    | 'A' -> Some (ORefresh CfgA) | 'B' -> Some (ORefresh CfgB) | 'E' -> Some ORefreshEarly | 'L' -> Some ORefreshLate | 'P' -> Some ORefreshLate
+    | 'A' -> Some (ORefresh CfgA) | 'B' -> Some (ORefresh CfgB) | 'E' -> Some ORefreshEarly | 'L' -> Some ORefreshLate | 'P' -> Some ORefreshLate | 'M' -> Some ORefreshLate
     | 'D' -> Some ODestroy | 'g' -> Some OLog | 'w' -> Some OWrite | 'r' -> Some OWriteRoot | 'v' -> Some OWrite (* second handle: same binding rule *) | 't' -> Some ORegisterTag | 'h' -> Some OGetLogger
     | _ -> None) (List.init (String.length line) (String.get line)) in
   let (_, outs) = lrun l_start ops in
